@@ -4,6 +4,7 @@ import (
 	"bytes"
 	"encoding/json"
 	"fmt"
+	"google.golang.org/protobuf/types/known/emptypb"
 	"io"
 	"math"
 	"math/big"
@@ -142,11 +143,11 @@ func cBool(v uint64) uint64 {
 	}
 	return 0
 }
-func cI32(v uint64) uint64   { return uint64(int64(int32(uint32(v)))) }
-func cU32(v uint64) uint64   { return uint64(uint32(v)) }
-func cID(v uint64) uint64    { return v }
-func cZZ32(v uint64) uint64  { return uint64(int64(refwire.UnZigZag32(v))) }
-func cZZ64(v uint64) uint64  { return uint64(refwire.UnZigZag64(v)) }
+func cI32(v uint64) uint64                 { return uint64(int64(int32(uint32(v)))) }
+func cU32(v uint64) uint64                 { return uint64(uint32(v)) }
+func cID(v uint64) uint64                  { return v }
+func cZZ32(v uint64) uint64                { return uint64(int64(refwire.UnZigZag32(v))) }
+func cZZ64(v uint64) uint64                { return uint64(refwire.UnZigZag64(v)) }
 func u1(v uint64, err error) (dval, error) { return dval{u: []uint64{v}}, err }
 
 func lst[T any](r []T, err error, f func(T) uint64) (dval, error) {
@@ -171,7 +172,10 @@ var dmethods = []dmethod{
 		v, err := d.DecodeFloat32()
 		return u1(uint64(math.Float32bits(v)), err)
 	}, refFixedItem(4, cID)},
-	{"DecodeFloat64", func(d *csproto.Decoder) (dval, error) { v, err := d.DecodeFloat64(); return u1(math.Float64bits(v), err) }, refFixedItem(8, cID)},
+	{"DecodeFloat64", func(d *csproto.Decoder) (dval, error) {
+		v, err := d.DecodeFloat64()
+		return u1(math.Float64bits(v), err)
+	}, refFixedItem(8, cID)},
 	{"DecodeBytes", func(d *csproto.Decoder) (dval, error) { b, err := d.DecodeBytes(); return dval{b: b}, err }, refLenItem},
 	{"DecodeString", func(d *csproto.Decoder) (dval, error) { s, err := d.DecodeString(); return dval{b: []byte(s)}, err }, refLenItem},
 	{"DecodePackedBool", func(d *csproto.Decoder) (dval, error) {
@@ -261,6 +265,7 @@ const (
 	opSkipMatching // Skip with the (tag, wt) of the key just before the cursor as found by the reference
 	opNested
 	opNestedFail
+	opNestedRuntime // DecodeNested into a message that only its runtime can decode (no csproto.Unmarshaler)
 	opSeek
 	opReset
 	opModeSafe
@@ -273,7 +278,7 @@ func opName(o Op) string {
 	if o.M < len(dmethods) {
 		return dmethods[o.M].name
 	}
-	return map[int]string{opTag: "DecodeTag", opSkip: "Skip", opSkipMatching: "SkipMatching", opNested: "DecodeNested", opNestedFail: "DecodeNested(failing)",
+	return map[int]string{opTag: "DecodeTag", opSkip: "Skip", opSkipMatching: "SkipMatching", opNested: "DecodeNested", opNestedFail: "DecodeNested(failing)", opNestedRuntime: "DecodeNested(runtime-only-target)",
 		opSeek: "Seek", opReset: "Reset", opModeSafe: "SetMode(safe)", opModeFast: "SetMode(fast)", opMore: "More", opAuto: "Auto"}[o.M]
 }
 
@@ -476,6 +481,23 @@ func (s *dstate) step(o Op, measure bool) (f *ev.Failure, interesting bool) {
 			return
 		}
 		rerun = func() { d := s.clone(before); _ = d.DecodeNested(&stubMsg{}) }
+	case o.M == opNestedRuntime:
+		// the target has no Unmarshal method: csproto asks the owning runtime.  Whether the payload is a message that
+		// runtime accepts is its business; the cursor rule is the decoder's: success = advanced by exactly key-less
+		// length prefix + payload, and a declared length beyond the input is an error
+		it := refLenItem(s.in, before)
+		interesting = true
+		err := s.d.DecodeNested(&emptypb.Empty{})
+		after := s.d.Offset()
+		switch {
+		case err == nil && !it.ok:
+			f = ev.Failf("C03/accepted-incomplete-item/DecodeNested-runtime-target", "DecodeNested(runtime-only target) at %d of %.48x succeeded although no complete length-delimited item starts there", before, s.in)
+			return
+		case err == nil && after != it.end:
+			f = ev.Failf("C03/cursor/DecodeNested-runtime-target", "DecodeNested(runtime-only target) at %d of %.48x succeeded and left the cursor at %d; the item ends at %d", before, s.in, after, it.end)
+			return
+		}
+		rerun = func() { d := s.clone(before); _ = d.DecodeNested(&emptypb.Empty{}) }
 	case o.M == opSeek:
 		interesting = true
 		var base int64
@@ -677,7 +699,7 @@ func genOp(t *rapid.T) Op {
 	case 3, 4:
 		return Op{M: rapid.IntRange(0, len(dmethods)-1).Draw(t, "m")}
 	case 5:
-		return Op{M: rapid.SampledFrom([]int{opTag, opNested, opNestedFail, opSkipMatching, opMore}).Draw(t, "special")}
+		return Op{M: rapid.SampledFrom([]int{opTag, opNested, opNestedFail, opNestedRuntime, opSkipMatching, opMore}).Draw(t, "special")}
 	case 6:
 		return Op{M: opSkip, Tag: wiregen.FieldNumber().Draw(t, "stag"), WT: rapid.IntRange(0, 7).Draw(t, "swt")}
 	case 7, 8:
@@ -688,7 +710,7 @@ func genOp(t *rapid.T) Op {
 	}
 }
 
-const ruleC03 = "(a) exhaustive: every byte string of length <= 4 (quick) / <= 5 (thorough) over the wire-significant alphabet {00,01,02,05,08,0a,0d,09,7f,80,81,ff} x every exported Decode*/DecodePacked*/DecodeNested/DecodeTag/Skip(matching and non-matching) x every start offset x {safe, fast}; " +
+const ruleC03 = "(a) exhaustive: every byte string of length <= 4 (quick) / <= 5 (thorough) over the wire-significant alphabet {00,01,02,05,08,0a,0d,09,7f,80,81,ff} x every exported Decode*/DecodePacked*/DecodeNested (stub target, failing stub, runtime-only target)/DecodeTag/Skip(matching and non-matching) x every start offset x {safe, fast}; " +
 	"(every input is handed over as buf[:n] of a larger array whose spare capacity holds varint terminators) (b) rapid: a mutated valid encoding (truncation, byte overwrite, hostile length prefixes up to 2^64-1, group wire types, field number 0, non-minimal varints, splices) + a program of <= 20 decoder calls incl. Seek(any int64, any whence), Reset, SetMode; " +
 	"oracle per call: no panic, cursor in [0,len], success => cursor advanced by exactly the reference item's length and value equal, declared length beyond input => error, bytes allocated by the call <= 16 KiB + 64*len(input); " +
 	"non-trivial = the input at the cursor is not a clean complete item for the method called, or the program contains a Seek/mode switch; distinct by (input, program) or (input, method, offset, mode)"
@@ -712,7 +734,7 @@ func TestC03(t *testing.T) {
 	for i := range dmethods {
 		ops = append(ops, Op{M: i})
 	}
-	ops = append(ops, Op{M: opTag}, Op{M: opNested}, Op{M: opNestedFail})
+	ops = append(ops, Op{M: opTag}, Op{M: opNested}, Op{M: opNestedFail}, Op{M: opNestedRuntime})
 	ops = append(ops, skipVariants...)
 	var walk func(prefix []byte)
 	walk = func(prefix []byte) {
